@@ -226,7 +226,9 @@ def cases(reader):
     bases.append(generated(reader).map(lambda d: ("generated", d)))
     bases.append(st.sampled_from([("empty", b""), ("empty", b"\n"), ("empty", b"\xef\xbb\xbf")]))
     base = st.one_of(*bases) if len(bases) < 3 else st.one_of(bases[0], bases[1], bases[1].map(lambda x: x), bases[2])
-    return st.builds(lambda b, ops: make_case(reader, b, ops), base, ops_strategy(reader))
+    ncfg = len(READER_CFGS.get(reader, [None]))
+    rcfg = st.integers(0, max(0, 2 * ncfg - 1)).map(lambda i: i - ncfg if i >= ncfg else 0)    # half of the cases: default configuration
+    return st.builds(lambda b, ops, rc: dict(make_case(reader, b, ops), rcfg=rc), base, ops_strategy(reader), rcfg)
   return strat
 
 
@@ -253,8 +255,23 @@ def _alarm(_sig, _frm):
   raise Timeout()
 
 
-def read(reader, data):
-  """runs one reader the way tt.py does; returns (document or None, number of CRITICAL records)"""
+def _reader_cfgs():
+  from ttconv.stl.config import STLReaderConfiguration
+  from ttconv.scc.config import SccReaderConfiguration
+  stl = [None] + [STLReaderConfiguration.parse(d) for d in (
+    {"max_row_count": "MNR"}, {"max_row_count": 11, "disable_fill_line_gap": True}, {"max_row_count": 1, "disable_line_padding": True},
+    {"program_start_tc": "TCP"}, {"program_start_tc": "00:00:01:00", "font_stack": "Verdana, monospace"},
+    {"program_start_tc": "10:00:00:00", "max_row_count": "MNR"}, {"max_row_count": 99})]
+  scc = [None] + [SccReaderConfiguration.parse({"text_align": v}) for v in ("left", "center", "right", "auto")]
+  return {"stl": stl, "scc": scc}
+
+
+READER_CFGS = _reader_cfgs()
+
+
+def read(reader, data, rcfg=0):
+  """runs one reader the way tt.py does, under the rcfg-th reader configuration; returns (document or None, number of CRITICAL records)"""
+  cfg = READER_CFGS.get(reader, [None])[rcfg % len(READER_CFGS.get(reader, [None]))]
   h = Critical()
   root = logging.getLogger("ttconv")
   root.addHandler(h)
@@ -269,9 +286,9 @@ def read(reader, data):
         raise XmlRejected(type(e).__name__) from e       # the XML parser, not ttconv, refuses the input
       doc = imsc_reader.to_model(tree)
     elif reader == "scc":
-      doc = scc_reader.to_model(data.decode("utf-8"))
+      doc = scc_reader.to_model(data.decode("utf-8"), cfg)
     elif reader == "stl":
-      doc = stl_reader.to_model(io.BytesIO(data))
+      doc = stl_reader.to_model(io.BytesIO(data), cfg)
     elif reader == "srt":
       doc = srt_reader.to_model(io.TextIOWrapper(io.BytesIO(data), encoding="utf-8"))
     else:
@@ -349,7 +366,9 @@ def run_case(case, res, limit, light=False):
   signal.alarm(limit)
   try:
     try:
-      doc, ncrit = read(reader, data)
+      doc, ncrit = read(reader, data, case.get("rcfg", 0))
+      if case.get("rcfg", 0):
+        res.label("%s:reader-configuration" % reader)
     except Timeout:
       raise
     except ALLOWED as e:
@@ -442,7 +461,7 @@ def shrinker(case):
 TT = '<tt xml:lang="en" xmlns="http://www.w3.org/ns/ttml" xmlns:tts="http://www.w3.org/ns/ttml#styling" xmlns:ttp="http://www.w3.org/ns/ttml#parameter" xmlns:ittp="http://www.w3.org/ns/ttml/profile/imsc1#parameter"%s>%s</tt>'
 
 
-def _gsi(tnb=b"00001", dfc=b"STL25.01", cct=b"00", dsc=b"1"):
+def _gsi(tnb=b"00001", dfc=b"STL25.01", cct=b"00", dsc=b"1", mnr=b"23"):
   g = bytearray(b" " * 1024)
   g[0:3] = b"850"
   g[3:11] = dfc
@@ -453,7 +472,7 @@ def _gsi(tnb=b"00001", dfc=b"STL25.01", cct=b"00", dsc=b"1"):
   g[243:248] = tnb
   g[248:251] = b"001"
   g[251:253] = b"40"
-  g[253:255] = b"23"
+  g[253:255] = mnr
   g[255:256] = b"1"
   g[256:264] = b"00000000"
   g[264:272] = b"00000000"
@@ -492,6 +511,10 @@ CATALOG = [
   ("srt", b"1\n00:00:01,000 --> 00:00:02,000\n<![foo]>x\n"), ("srt", b"1\n00:00:01,000 --> 00:00:02,000\na<![ b <!-- c --> <?d?> <!DOCTYPE e [\n"),
   ("srt", b"1\n00:00:01,000 --> 00:00:02,000\n<font color>x</font>\n"), ("srt", b"1\n00:00:01,000 --> 00:00:02,000\n<font color=>x</font><b =>y\n"),
   ("stl", b""), ("stl", b"x" * 100), ("stl", _gsi()), ("stl", _gsi() + _tti()), ("stl", _gsi(tnb=b"00000") + _tti()), ("stl", _gsi() + _tti()[:60]),
+  # reader configurations (third item: index into READER_CFGS): row count taken from a GSI MNR field that is zero / not a number,
+  # programme start taken from a TCP field that is not a time code
+  ("stl", _gsi(dsc=b"0", mnr=b"00") + _tti(), 1), ("stl", _gsi(dsc=b"0", mnr=b"xx") + _tti(tci=(0, 1, 0, 0), tco=(0, 1, 2, 0)), 1),
+  ("stl", _gsi(dsc=b"0", mnr=b"  ") + _tti(), 6), ("stl", _gsi(dsc=b"0") + _tti(vp=23), 3), ("stl", _gsi() + _tti(), 4), ("stl", _gsi(dsc=b"0") + _tti(), 5),
   ("stl", _gsi(dfc=b"STL99.01") + _tti()), ("stl", _gsi(cct=b"99") + _tti()), ("stl", _gsi(dsc=b"9") + _tti()), ("stl", _gsi(tnb=b"     ") + _tti()),
   ("stl", _gsi() + _tti(cs=3)), ("stl", _gsi() + _tti(cs=2) + _tti(sn=2, cs=3)), ("stl", _gsi() + _tti(ebn=0x01)), ("stl", _gsi() + _tti(ebn=0xFE) + _tti(cf=1)),
   ("stl", _gsi() + _tti(tci=(0, 0, 1, 99))), ("stl", _gsi() + _tti(tci=(0, 0, 2, 0), tco=(0, 0, 1, 0))), ("stl", _gsi() + _tti(vp=0)), ("stl", _gsi() + _tti(vp=99, jc=9)),
@@ -529,8 +552,8 @@ def catalog_chunks(tier, seed):
 
 def catalog_cases(chunk):
   for i in range(*chunk):
-    reader, data = CATALOG[i]
-    yield {"reader": reader, "data": data, "origin": "catalog", "mutations": ["catalog"]}
+    reader, data, *rest = CATALOG[i]
+    yield {"reader": reader, "data": data, "origin": "catalog", "mutations": ["catalog"], "rcfg": rest[0] if rest else 0}
 
 
 PARTS = {
@@ -567,7 +590,7 @@ def atheris_campaign(chunk):
   try:
     corpus = os.path.join(tmp, "corpus")
     os.makedirs(corpus)
-    seeds = list(CORPUS[reader][:20]) + [d for r, d in CATALOG if r == reader]
+    seeds = list(CORPUS[reader][:20]) + [c[1] for c in CATALOG if c[0] == reader]
     for i, d in enumerate(seeds):
       with open(os.path.join(corpus, "seed%03d" % i), "wb") as f:
         f.write(d)
